@@ -723,9 +723,10 @@ class CParser:
             return [func]
 
         decl_dict: "_DeclInfo" = dict(decl=decl, init=None, bitsize=None)
+        self._declare_declarator_name(decl, spec)
         if self._accept("EQUALS"):
             decl_dict["init"] = self._parse_initializer()
-        decls = self._parse_init_declarator_list(first=decl_dict)
+        decls = self._parse_init_declarator_list(first=decl_dict, spec=spec)
         decls = self._build_declarations(spec=spec, decls=decls, typedef_namespace=True)
         self._expect("SEMI")
         return decls
@@ -757,10 +758,10 @@ class CParser:
         decl_infos: Optional[List["_DeclInfo"]] = None
         if saw_type:
             if self._starts_declarator():
-                decl_infos = self._parse_init_declarator_list()
+                decl_infos = self._parse_init_declarator_list(spec=spec)
         else:
             if self._starts_declarator(id_only=True):
-                decl_infos = self._parse_init_declarator_list(id_only=True)
+                decl_infos = self._parse_init_declarator_list(id_only=True, spec=spec)
 
         decls: List[c_ast.Node]
         if decl_infos is None:
@@ -1058,25 +1059,47 @@ class CParser:
 
     # BNF: init_declarator_list : init_declarator (',' init_declarator)*
     def _parse_init_declarator_list(
-        self, first: Optional["_DeclInfo"] = None, id_only: bool = False
+        self,
+        first: Optional["_DeclInfo"] = None,
+        id_only: bool = False,
+        spec: Optional["_DeclSpec"] = None,
     ) -> List["_DeclInfo"]:
         decls = (
             [first]
             if first is not None
-            else [self._parse_init_declarator(id_only=id_only)]
+            else [self._parse_init_declarator(id_only=id_only, spec=spec)]
         )
 
         while self._accept("COMMA"):
-            decls.append(self._parse_init_declarator(id_only=id_only))
+            decls.append(self._parse_init_declarator(id_only=id_only, spec=spec))
         return decls
 
     # BNF: init_declarator : declarator ('=' initializer)?
-    def _parse_init_declarator(self, id_only: bool = False) -> "_DeclInfo":
+    def _parse_init_declarator(
+        self, id_only: bool = False, spec: Optional["_DeclSpec"] = None
+    ) -> "_DeclInfo":
         decl = self._parse_id_declarator() if id_only else self._parse_declarator()
+        if spec is not None:
+            self._declare_declarator_name(decl, spec)
         init = None
         if self._accept("EQUALS"):
             init = self._parse_initializer()
         return dict(decl=decl, init=init, bitsize=None)
+
+    def _declare_declarator_name(self, decl: c_ast.Node, spec: "_DeclSpec") -> None:
+        """The scope of a declared name begins just after its declarator
+        (C99 6.2.1p7), i.e. before its initializer and before the following
+        declarators: 'int T = sizeof(T), y = T;' must already see the new T.
+        """
+        typ: Any = decl
+        while typ is not None and not isinstance(typ, c_ast.TypeDecl):
+            typ = getattr(typ, "type", None)
+        if typ is None or not typ.declname:
+            return
+        if "typedef" in spec["storage"]:
+            self._add_typedef_name(typ.declname, typ.coord)
+        else:
+            self._add_identifier(typ.declname, typ.coord)
 
     # ------------------------------------------------------------------
     # Structs/unions/enums
